@@ -41,6 +41,7 @@ def run(rep, tier, prop="C01", extra_kinds=()):
     if br_:
         common.guarded(rep, "C03.3", c03.c03_3, rep, ix, M, cc_, br_)
     common.guarded(rep, "C03.5", c03.c03_5, rep, ix, M)
+    common.guarded(rep, P + ".9", redeclaration, rep, ix, P + ".9")
     rep.rule(P + ".4", "script structure: metadata keywords, option and argument lists, statement lines and mode lists have the shapes the grammar prescribes; elements are separated by ', '", floor=8)
     common.guarded(rep, P + ".4", tser.structure, rep, P + ".4", ix, M)
     rep.rule(P + ".5", "array values are hoisted into declarations whose header and rows are in the language of arrayvar for the array's own dtype, one fresh declaration per array value, inserted before the statements", floor=10)
@@ -77,3 +78,30 @@ def run(rep, tier, prop="C01", extra_kinds=()):
     rep.rule(P + ".6", "a register transform prints as the text of its expression", floor=1)
     rep.check(len(body) == 1 and u(body[0]) == "return self.func_str" and len(fs) == 1 and u(fs[0].value) == "str(%s)" % init.params[1], P + ".6", ix.site(rr),
               "RegRefTransform.__str__ returns str(expr)", key="regref str")
+
+
+def redeclaration(rep, ix, R):
+    """the serialiser of a tdm program writes every variable and also declares hoisted array arguments as A0, A1, ...: after one round trip
+    those names are variables, and the next dump declares them twice.  The reader must therefore accept a name that is declared again."""
+    import ast
+    from ..py.guards import AEval, Reach, resolved_text
+    from ..py.index import u, walk_shallow
+    rep.rule(R, "a declaration of a name that is already declared is accepted (the later value replaces the earlier one): the text written for a tdm program can declare a hoisted "
+                "array name twice", floor=2)
+    for q in ("listener.BlackbirdListener.exitExpressionvar", "listener.BlackbirdListener.exitArrayvar"):
+        f = ix.func(q)
+        fn = f.node
+        stores = [n for n in walk_shallow(fn) if isinstance(n, ast.Assign) and isinstance(n.targets[0], ast.Subscript) and u(n.targets[0].value) == "_VAR"]
+        if not stores:
+            rep.unknown(R, ix.site(f), "%s stores the declared value" % q.split(".")[-1], "no store into _VAR found")
+            continue
+
+        def atom(node):
+            if isinstance(node, ast.Compare) and len(node.ops) == 1 and isinstance(node.ops[0], (ast.In, ast.NotIn)) and u(node.comparators[0]) == "_VAR":
+                return isinstance(node.ops[0], ast.In)           # the name IS in the table already
+            if isinstance(node, ast.Call) and isinstance(node.func, ast.Attribute) and node.func.attr == "get" and u(node.func.value) == "_VAR":
+                return "EARLIER-VALUE"
+            return AEval.NO
+        ok = any(Reach(fn, st).may_reach(atom) for st in stores)
+        rep.check(ok, R, ix.site(f, stores[0]), "%s: the store is reachable when the name is already in the variable table" % q.split(".")[-1],
+                  "a second declaration of a name is refused: a tdm program with an array argument no longer survives two dump/load generations", key=q + "|redeclare")
